@@ -4,6 +4,8 @@
     load <line>…                       → ok | raised          line: E:<name>,<name>;<key>  |  S  |  I
     add <name> <type hex> <key>        → ok
     del <name>                         → ok | keyerror
+    subset <name> <type hex> <key>     → ok | keyerror        hostkeys[name][type] = key
+    setitem <name> <type hex>=<key>,…  → ok                   hostkeys[name] = {type: key, …}
     lookup <name>                      → none | <type hex>=<blob hex>;…      (one item per matching entry, in order)
     check <name> <key>                 → 1 | 0
     keys                               → <name>,<name>,…
@@ -79,6 +81,22 @@ def step (t : Table) (line : String) : Table × String :=
       | .ok t' => (t', "ok")
       | .error _ => (t, "keyerror")
     | none => (t, "bad-op")
+  | ["subset", n, ty, k] =>
+    match parseName n, strOfHex ty, parseKey k with
+    | some n, some ty, some k => match subSet prims t n ty k with
+      | .ok t' => (t', "ok")
+      | .error _ => (t, "keyerror")
+    | _, _, _ => (t, "bad-op")
+  | ["setitem", n, kvs] =>
+    let parseKV (x : String) : Option (String × Key) :=
+      match x.splitOn "=" with
+      | [ty, k] => match strOfHex ty, parseKey k with
+        | some ty, some k => some (ty, k)
+        | _, _ => none
+      | _ => none
+    match parseName n, (kvs.splitOn ",").mapM parseKV with
+    | some n, some kvs => (setItem t n kvs, "ok")
+    | _, _ => (t, "bad-op")
   | ["lookup", n] =>
     match parseName n with
     | some n =>
